@@ -98,7 +98,7 @@ def _node_task(nid):
                    "viol": [], "ans": None, "ans_n": None, "tb": traceback.format_exc()[-1500:]}
         if tree_edge and has_out.get(dst) and res.get("ans") is not None and not res["shape"]:
             with open(os.path.join(root, "ans.json"), "w") as f:
-                json.dump(res["ans"], f)
+                json.dump({"f": res["ans"], "n": res["ans_n"]}, f)
             RP.snapshot(root, os.path.join(snapdir, f"{dst}.tar"))
         res["src"], res["dst"], res["tree"] = nid, dst, tree_edge
         res.pop("ans_w", None)
@@ -115,12 +115,14 @@ def _node_task(nid):
 
 
 def path_to(parent, nid):
-    out = []
+    """labels and node ids of the BFS-tree path from the initial state to nid"""
+    labs, nodes = [], [nid]
     while parent[nid] is not None:
         p, lab = parent[nid]
-        out.append(lab.replace('\\"', '"'))
+        labs.append(lab.replace('\\"', '"'))
+        nodes.append(p)
         nid = p
-    return out[::-1]
+    return labs[::-1], nodes[::-1]
 
 
 def report(ctx, res, path, model, extra=None):
@@ -181,8 +183,11 @@ def replay_graph(ctx, cfgname, budget, label):
                 for res in out:
                     nexec += 1
                     ctx.count()
-                    path = path_to(parent, res["src"]) + [res["lab"].replace('\\"', '"')]
-                    report(ctx, res, path, models[res["dst"]])
+                    labs, nodes = path_to(parent, res["src"])
+                    path = labs + [res["lab"].replace('\\"', '"')]
+                    if res["viol"] or res["shape"]:
+                        report(ctx, res, path, models[res["dst"]],
+                               {"models": [models[x] for x in nodes] + [models[res["dst"]]]})
                     a = res["lab"].split("(")[0]
                     acts[a] = acts.get(a, 0) + 1
                     if not res["shape"]:
@@ -215,7 +220,7 @@ def run_behaviour(ctx, labels, models, seed=0, who_seq=None, opts=None, strict_s
         out.append(res)
         if res["ans"] is None or (strict_shape and res["shape"]):
             break
-        src_ans = res["ans"]
+        src_ans = {"f": res["ans"], "n": res["ans_n"]}
     shutil.rmtree(root, ignore_errors=True)
     shutil.rmtree(scratch, ignore_errors=True)
     return out
@@ -250,7 +255,7 @@ def defect_replays(ctx, futs):
                 ctx.count(len(steps))
                 for k, r in enumerate(steps):
                     r["shape"] = [x for x in r["shape"] if x.startswith(("action raised", "unprojectable", "harness"))]
-                    report(ctx, r, labels[:k + 1], models[k + 1], {"defect_model": name})
+                    report(ctx, r, labels[:k + 1], models[k + 1], {"defect_model": name, "models": models[:k + 2]})
                     if not r["shape"]:
                         ctx.validated()
                     confirmed += [f"{c}|{q}|{cause}" for (_, c, q, cause, _) in r["viol"]]
@@ -264,6 +269,8 @@ def defect_replays(ctx, futs):
 
 # --------------------------------------------------------------------------- entry
 def run(ctx):
+    for fn in os.listdir(ctx.replay_dir):          # replay files of earlier runs
+        os.remove(os.path.join(ctx.replay_dir, fn))
     if not git_available():
         ctx.assumptions.append("C git not found: git-writer transitions were skipped")
     pool = cf.ThreadPoolExecutor(max_workers=4)
@@ -290,20 +297,30 @@ def run(ctx):
 
 def replay(ctx, path):
     obj = json.load(open(path))
-    print(json.dumps({k: v for k, v in obj.items() if k != "model_state"}, indent=1)[:4000])
-    labels = obj.get("labels")
-    if not labels:
+    print(json.dumps({k: v for k, v in obj.items() if k not in ("model_state", "models")}, indent=1)[:4000])
+    labels, models = obj.get("labels"), obj.get("models")
+    if not labels or not models:
         return 0
-    # re-derive the model states along the behaviour with TLC (trace spec), then execute
-    models = model_states_for(ctx, labels)
     ctx.known = []
-    whos = None
-    steps = run_behaviour(ctx, labels, models, seed=obj.get("seed", 0), who_seq=whos)
-    for k, r in enumerate(steps):
-        print(f"step {k + 1}: {labels[k]} by {r['who']} opts {r['opts']}: shape={r['shape']} violations={[v[1:4] for v in r['viol']]}")
+    n = len(labels)
+    whos = [None] * (n - 1) + [obj.get("who_last")]
+    root, scratch = ctx.tmpdir("beh"), ctx.tmpdir("behs")
+    X.create(root)
+    src_ans = None
+    for k, lab in enumerate(labels):
+        last = k == n - 1
+        r = RP.step(root, scratch, models[k], lab, models[k + 1], src_ans, seed=obj.get("seed", 0), who=whos[k],
+                    opts=(obj.get("opts_last") if last else None), light=False)
+        print(f"step {k + 1}: {lab} by {r['who']} (opts {r['opts']})")
+        if r.get("real"):
+            print(f"    directory: {json.dumps(r['real'], sort_keys=True)}")
+        for s in r["shape"]:
+            print(f"    SHAPE {s}")
+        for (site, clause, q, cause, detail) in r["viol"]:
+            print(f"    {clause} [{q}] cause {cause}: {detail}")
         report(ctx, r, labels[:k + 1], models[k + 1])
+        if r["ans"] is None:
+            break
+        src_ans = {"f": r["ans"], "n": r["ans_n"]}
+    print("result:", "VIOLATION reproduced" if ctx.violations else "no violation on the current tree")
     return 1 if ctx.violations else 0
-
-
-def model_states_for(ctx, labels):
-    raise MachineryError("model_states_for not built yet")
